@@ -42,12 +42,10 @@ Definition pc_flag (p : pc_t) : option (mid * bool) :=
 Definition is_R0 (p : pc_t) : bool := match p with PR0 c => negb (lrc c) | _ => false end.
 
 Record inv1_at (s : state) (t : tid) (m : mid) : Prop := mkInv1 {
-  i1_cnt_owner : (cnt (th s t) m > 0)%nat -> owner (mx s m) = Some t;
-  i1_must : must (pc (th s t)) m = true -> owner (mx s m) = Some t;
-  i1_incode : incode (pc (th s t)) m = true -> cnt (th s t) m = O;
+  i1_cnt_owner : recursive (mx s m) = false -> (cnt (th s t) m > 0)%nat -> owner (mx s m) = Some t;
+  i1_must : recursive (mx s m) = false -> must (pc (th s t)) m = true -> owner (mx s m) = Some t;
+  i1_incode : recursive (mx s m) = false -> incode (pc (th s t)) m = true -> cnt (th s t) m = O;
   i1_plain : recursive (mx s m) = false -> (cnt (th s t) m <= 1)%nat;
-  i1_rc : recursive (mx s m) = true -> owner (mx s m) = Some t -> rcnt (mx s m) = Z.of_nat (cnt (th s t) m);
-  i1_rc0 : owner (mx s m) = None \/ recursive (mx s m) = false -> rcnt (mx s m) = 0;
   i1_flag : forall b, pc_flag (pc (th s t)) = Some (m, b) -> b = recursive (mx s m);
   i1_r0 : is_R0 (pc (th s t)) = false
 }.
@@ -106,6 +104,7 @@ Ltac fin1 :=
   unfold upd, on, after_fail in *; cbn in *; rwpc; cbn in *; dvars; cbn in *; intros; injs;
   eqb_tac; cbn in *; boolfacts; injs; subst; cbn in *; specflag.
 Ltac syms :=
+  repeat match goal with H : ?x = ?x |- _ => clear H end;
   repeat match goal with
   | H : true = ?x |- _ => tryif is_var x then fail else (symmetry in H)
   | H : false = ?x |- _ => tryif is_var x then fail else (symmetry in H)
@@ -124,8 +123,8 @@ Ltac fin :=
    (t0, m0) and at the acting thread (a, m0); split on whether t0 / m0 are the ones touched *)
 Ltac pointwise H a :=
   intros t0 m0;
-  pose proof (H t0 m0) as [? ? ? ? ? ? ? ?];
-  pose proof (H a m0) as [? ? ? ? ? ? ? ?];
+  pose proof (H t0 m0) as [? ? ? ? ? ?];
+  pose proof (H a m0) as [? ? ? ? ? ?];
   constructor; fin.
 
 Lemma inv1_step s l s' : inv1 s -> step s l = Some s' -> inv1 s'.
@@ -145,3 +144,25 @@ Proof.
   - unfold exp_body in Hs. split_ifs Hs; try discriminate; injection Hs as <-; norm; pointwise H a.
   - split_ifs Hs; try discriminate; injection Hs as <-. intros t m. destruct (H t m); constructor; cbn; auto.
 Qed.
+
+Lemma inv1_reachable s : reachable s -> inv1 s.
+Proof.
+  apply reachable_ind_inv; [exact inv1_init|].
+  intros s0 l s' _ H Hs. eapply inv1_step; eauto.
+Qed.
+
+(* mutex_excl for mutex / seq_mutex objects, for the code exactly as written (no idealisation):
+   at most one thread is between a lock()/try_lock() that returned 0 and its unlock(). *)
+Lemma mutex_excl_plain_l s : reachable s ->
+  forall m t1 t2, recursive (mx s m) = false ->
+    (cnt (th s t1) m > 0)%nat -> (cnt (th s t2) m > 0)%nat -> t1 = t2.
+Proof.
+  intros Hr m t1 t2 Hp H1 H2. pose proof (inv1_reachable s Hr) as HI.
+  pose proof (i1_cnt_owner _ _ _ (HI t1 m) Hp H1). pose proof (i1_cnt_owner _ _ _ (HI t2 m) Hp H2). congruence.
+Qed.
+Lemma holder_is_owner_plain_l s : reachable s ->
+  forall m t, recursive (mx s m) = false -> (cnt (th s t) m > 0)%nat -> owner (mx s m) = Some t.
+Proof. intros Hr m t Hp H1. exact (i1_cnt_owner _ _ _ (inv1_reachable s Hr t m) Hp H1). Qed.
+Lemma plain_depth_le_1_l s : reachable s ->
+  forall m t, recursive (mx s m) = false -> (cnt (th s t) m <= 1)%nat.
+Proof. intros Hr m t Hp. exact (i1_plain _ _ _ (inv1_reachable s Hr t m) Hp). Qed.
